@@ -1,2 +1,73 @@
-(** C20 -- statements only (stub; extended below). *)
-From InvokeVerif Require Import Model.LoaderModel Spec.C20Spec.
+(** C20 -- the nearest enclosing tasks module is the one loaded, with its
+    project dir.  Statements only; proofs in Proofs/C20_loader.v.
+
+    Model: Model/LoaderModel.v (FilesystemLoader.find, Loader.load) over the
+    abstract file system of Common/FsTypes.v.  [guard_abs]: absolute
+    normalised start directory below "/", every ancestor listable,
+    os.listdir("") raising FileNotFoundError (OS contract). *)
+From InvokeVerif Require Import Model.LoaderModel Spec.C20Spec Proofs.C20_loader.
+
+(** The loaded module is the candidate (module first, else package) of the
+    nearest ancestor, start included; otherwise collection-not-found.
+    Missing for full strength: a candidate in "/" (F-C20), relative starts (F-C20b). *)
+Theorem C20_nearest_partial :
+  forall fs cwd name comps,
+    guard_abs fs comps name = true -> root_clear fs name = true ->
+    load fs cwd name (dir_str comps) = to_loaded (expected fs name comps).
+Proof. exact nearest_partial. Qed.
+
+(** Flagship: on that region the model satisfies the executable specification. *)
+Theorem C20_spec_partial :
+  forall fs cwd name comps,
+    guard_abs fs comps name = true -> root_clear fs name = true ->
+    spec_ok fs cwd (dir_str comps) name (obs_of (load fs cwd name (dir_str comps))) = true.
+Proof. exact spec_partial. Qed.
+
+(** F-C20: tasks.py in "/" is not found from /a. *)
+Theorem C20_nearest_refuted :
+  guard_abs fs_root ["a"] "tasks" = true /\
+  load fs_root "/" "tasks" (dir_str ["a"]) = NotFound /\
+  expected fs_root "tasks" ["a"] = Some ("/tasks.py", "/") /\
+  spec_ok fs_root "/" (dir_str ["a"]) "tasks" (obs_of (load fs_root "/" "tasks" (dir_str ["a"]))) = false.
+Proof. exact root_refutes. Qed.
+
+(** F-C20b: relative start "d1" from cwd /w holding tasks.py: not found. *)
+Theorem C20_relative_start_refuted :
+  load fs_rel "/w" "tasks" "d1" = NotFound /\
+  expected fs_rel "tasks" (abs_comps "/w" "d1") = Some ("/w/tasks.py", "/w") /\
+  spec_ok fs_rel "/w" "d1" "tasks" (obs_of (load fs_rel "/w" "tasks" "d1")) = false.
+Proof. exact relative_refutes. Qed.
+
+(** Never a farther candidate: whatever is loaded is the candidate of an
+    ancestor below the root and no nearer ancestor offers one (full strength on
+    [guard_abs], root candidate or not). *)
+Theorem C20_never_farther :
+  forall fs cwd name comps f p,
+    guard_abs fs comps name = true ->
+    load fs cwd name (dir_str comps) = Loaded f p ->
+    exists j, 1 <= j <= List.length comps /\
+      candidate fs name (dir_str (firstn j comps)) = Some (f, p) /\
+      forall k, j < k <= List.length comps -> candidate fs name (dir_str (firstn k comps)) = None.
+Proof. exact loaded_is_nearest. Qed.
+
+(** Project location: the directory containing name.py, or the parent of the
+    package directory name/ . *)
+Theorem C20_parent :
+  forall fs name d f p,
+    candidate fs name d = Some (f, p) ->
+    p = d /\ (f = child d (name ++ ".py") \/ f = child (child d name) "__init__.py").
+Proof. exact parent_rule. Qed.
+
+(** No candidate at any ancestor (root included): collection-not-found. *)
+Theorem C20_not_found :
+  forall fs cwd name comps,
+    guard_abs fs comps name = true -> expected fs name comps = None ->
+    load fs cwd name (dir_str comps) = NotFound.
+Proof. exact not_found. Qed.
+
+(** Non-vacuity: a module shadows a farther package; a package found from its parent. *)
+Example C20_example :
+  guard_abs fs_ex ["p"; "q"; "r"; "s"] "tasks" = true /\ root_clear fs_ex "tasks" = true /\
+  load fs_ex "/" "tasks" "/p/q/r/s" = Loaded "/p/q/tasks.py" "/p/q" /\
+  load fs_ex "/" "tasks" "/p" = Loaded "/p/tasks/__init__.py" "/p".
+Proof. exact example_nearest. Qed.
